@@ -17,8 +17,9 @@ Import String.StringSyntax.
 (** Only the documented edges: every step of every interleaving leaves the
     state alone or moves it awake->sleeping, sleeping->polling,
     polling->sleeping, sleeping->awake or polling->awake. *)
-Theorem C30_edges_allowed : forall gc tr s s', run gc s tr = Some s' ->
-  forall pre st post s1 s2, tr = pre ++ st :: post -> run gc s pre = Some s1 -> exec gc s1 st = Some s2 ->
+Theorem C30_edges_allowed : forall gc tr s',
+  run gc init tr = Some s' ->
+  forall pre st post s1 s2, tr = pre ++ st :: post -> run gc init pre = Some s1 -> exec gc s1 st = Some s2 ->
   edge_ok (s_state s1) (s_state s2) = true.
 Proof. exact edges_allowed. Qed.
 Print Assumptions C30_edges_allowed.
@@ -84,12 +85,31 @@ Theorem C30_refuted_polling_edge_not_persisted :
 Proof. exact refuted_polling_edge_not_persisted. Qed.
 Print Assumptions C30_refuted_polling_edge_not_persisted.
 
-(** ... and what holds after every step of every interleaving: the file holds
-    the state with POLLING written as SLEEPING. *)
+(** ... and what holds after every step of every interleaving and restart: the
+    file holds the state, except that while POLLING it may still say SLEEPING. *)
 Theorem C30_persist_matches_modulo_polling_partial : forall gc tr s,
-  run gc init tr = Some s -> collapse (s_state s) = s_persist s.
+  run gc init tr = Some s ->
+  s_persist s = s_state s \/ (s_state s = MPolling /\ s_persist s = MSleeping).
 Proof. exact persist_matches_modulo_polling. Qed.
 Print Assumptions C30_persist_matches_modulo_polling_partial.
+
+(** Restarts.  A trace may contain [Restart graceful start] steps: the process
+    ends (Stop() writes the current state, a crash writes nothing), every
+    goroutine is gone, and a new Manager over the same directory loads the
+    file (through Start(), which re-arms the timer when asleep, or LoadState()
+    alone).  [C30_edges_allowed] and [C30_persist_matches_modulo_polling_partial]
+    above quantify over such traces too, so the file matches the state after
+    the first transition that follows a load as after any other. *)
+Theorem C30_restart_resumes_persisted : forall gc s g st s', exec gc s (Restart g st) = Some s' ->
+  s_state s' = s_persist s' /\ s_persist s' = (if g then s_state s else s_persist s) /\ s_lock s' = None.
+Proof. exact restart_resumes_persisted. Qed.
+Print Assumptions C30_restart_resumes_persisted.
+
+Theorem C30_restart_then_wake_is_persisted :
+  exists s, run_fixed init [NewSleep; Run 0; Run 0; Restart true false; NewWake; Run 1; Run 1] = Some s /\
+    s_state s = MAwake /\ s_persist s = MAwake /\ s_writes s = 3%N.
+Proof. exact restart_then_wake_is_persisted. Qed.
+Print Assumptions C30_restart_then_wake_is_persisted.
 
 (** Two interleavings the wake generation does not cover (known findings):
     the OnPoll callback of a poll can still be entered after a wake that
